@@ -1,0 +1,80 @@
+#ifndef KALIGN_VERIF_H
+#define KALIGN_VERIF_H
+
+/*
+  Verification hooks. Everything in this file (and in kalign_verif.c) is
+  compiled only with -DKALIGN_VERIF. With the guard off KV_HOOK() expands to
+  nothing and no symbol of this module exists.
+
+  Each hook emits one NDJSON line: {"e":<event>,"q":<sequence number>,"t":<thread>,...}
+  The sequence number is taken and the line is written under one mutex, so the
+  order of lines in the sink is the order of the sequence numbers and never
+  depends on clocks.
+*/
+
+#ifdef KALIGN_VERIF
+
+#include <stdio.h>
+#include <stdint.h>
+
+struct msa;
+struct aln_tasks;
+struct aln_mem;
+struct aln_param;
+
+#ifdef __cplusplus
+extern "C" {
+#endif
+
+/* 0: off. 1: events with scalars and digests. 2: + full arrays (paths, gap vectors) */
+extern int kv_level;
+/* also log the steps of the serial Hirschberg controller */
+extern int kv_hirsch_serial;
+
+void kv_enable(FILE* sink, int level);
+void kv_disable(void);
+void kv_flush(void);
+void kv_set_perturb(unsigned int seed);
+void kv_perturb(int point);
+/* free-form event used by harnesses: body is a JSON fragment without braces, may be NULL */
+void kv_raw(const char* event, const char* body);
+uint32_t kv_digest_ints(const int* a, int n);
+
+void kv_run_begin(struct msa* msa, int n_threads, int type, float gpo, float gpe, float tgpe);
+void kv_ranked(struct msa* msa);
+void kv_sorted(struct msa* msa);
+void kv_params(struct aln_param* ap, int biotype);
+void kv_tree(struct msa* msa, struct aln_tasks* t);
+void kv_final(struct msa* msa);
+void kv_run_end(struct msa* msa, int rc);
+
+void kv_merge_begin(struct msa* msa, struct aln_tasks* t, int task_id);
+void kv_merge_end(struct msa* msa, struct aln_tasks* t, struct aln_mem* m, int task_id);
+
+void kv_hstep(struct aln_mem* m, int old_cor[], int par);
+void kv_hfwd(struct aln_mem* m);
+void kv_hbwd(struct aln_mem* m);
+void kv_hmeet(struct aln_mem* m, int old_cor[]);
+void kv_hsplit(struct aln_mem* m, int old_cor[], int meet, int transition, int serial);
+
+void kv_dm(float** dm, int rows, int cols, int pair);
+void kv_km_node(uint32_t id, int num_samples, int leaf);
+void kv_km_split(const int* samples, int num_samples, int seed_pick, const int* sl, int nl, const int* sr, int nr, float score);
+void kv_km_reduce(uint32_t id, int i, int step, const uint32_t dg[4]);
+uint32_t kv_km_result_digest(const int* sl, int nl, const int* sr, int nr, float score);
+void kv_km_kids(uint32_t id, uint32_t l, uint32_t r, int nl, int nr);
+void kv_km_done(uint32_t id);
+
+#ifdef __cplusplus
+}
+#endif
+
+#define KV_HOOK(x) do{ if(kv_level){ x; } }while(0)
+
+#else
+
+#define KV_HOOK(x) do{ }while(0)
+
+#endif  /* KALIGN_VERIF */
+
+#endif
